@@ -457,26 +457,93 @@ package opset13
 //@   tags C02
 //@   ensures new_result: err == nil ==> result != nil && fresh(result)
 
+//@ func (*Scaler).Init
+//@   tags C04,C02
+//@   requires self != nil
+//@   scope new_operator: self.offset == nil && self.scale == nil
+//@   scope attributes_present: n != nil && (forall k :: 0 <= k && k < len(n.Attribute) ==> n.Attribute[k] != nil)
+//@   modifies opstate(self)
+//@   ensures attribute_count_refused: len(n.Attribute) != 2 ==> err != nil
+//@   ensures unknown_attribute_refused: (exists k :: 0 <= k && k < len(n.Attribute) && n.Attribute[k].Name != "offset" && n.Attribute[k].Name != "scale") ==> err != nil
+//@   ensures offset_and_scale_accepted: len(n.Attribute) == 2 && (forall k :: 0 <= k && k < len(n.Attribute) ==> (n.Attribute[k].Name == "offset" || n.Attribute[k].Name == "scale")) ==> err == nil
+//@   loop 1 invariant forall k :: 0 <= k && k < $i ==> (n.Attribute[k].Name == "offset" || n.Attribute[k].Name == "scale")
+//@   loop 1 invariant (self.offset == nil || (fresh(self.offset) && allocated(self.offset) && wf(self.offset) && rank(self.offset) == 1 && dtype(self.offset) == Float32)) &&
+//@          (self.scale == nil || (fresh(self.scale) && allocated(self.scale) && wf(self.scale) && rank(self.scale) == 1 && dtype(self.scale) == Float32)) &&
+//@          (self.offset == nil || self.scale == nil || ref(self.offset) != ref(self.scale))
+//@   ensures float32_vectors: err == nil ==> (self.offset != nil ==> rank(self.offset) == 1 && dtype(self.offset) == Float32) && (self.scale != nil ==> rank(self.scale) == 1 && dtype(self.scale) == Float32)
+//@   ensures one_offset_per_listed_value: err == nil ==> (forall k :: 0 <= k && k < len(n.Attribute) && n.Attribute[k].Name == "offset" && (forall j :: k < j && j < len(n.Attribute) ==> n.Attribute[j].Name != "offset") ==> self.offset != nil && dim(self.offset, 0) == len(n.Attribute[k].Floats))
+//@   loop 1 invariant forall k :: 0 <= k && k < $i && n.Attribute[k].Name == "offset" && (forall j :: k < j && j < $i ==> n.Attribute[j].Name != "offset") ==> self.offset != nil && dim(self.offset, 0) == len(n.Attribute[k].Floats)
+//@   ensures one_scale_per_listed_value: err == nil ==> (forall k :: 0 <= k && k < len(n.Attribute) && n.Attribute[k].Name == "scale" && (forall j :: k < j && j < len(n.Attribute) ==> n.Attribute[j].Name != "scale") ==> self.scale != nil && dim(self.scale, 0) == len(n.Attribute[k].Floats))
+//@   loop 1 invariant forall k :: 0 <= k && k < $i && n.Attribute[k].Name == "scale" && (forall j :: k < j && j < $i ==> n.Attribute[j].Name != "scale") ==> self.scale != nil && dim(self.scale, 0) == len(n.Attribute[k].Floats)
+//@   ensures offset_wraps_the_listed_values: err == nil ==> (forall k :: 0 <= k && k < len(n.Attribute) && n.Attribute[k].Name == "offset" && (forall j :: k < j && j < len(n.Attribute) ==> n.Attribute[j].Name != "offset") && len(n.Attribute[k].Floats) >= 1 ==> sameslice(tdata(self.offset, "float32"), n.Attribute[k].Floats))
+//@   loop 1 invariant forall k :: 0 <= k && k < $i && n.Attribute[k].Name == "offset" && (forall j :: k < j && j < $i ==> n.Attribute[j].Name != "offset") && len(n.Attribute[k].Floats) >= 1 ==> sameslice(tdata(self.offset, "float32"), n.Attribute[k].Floats)
+//@   ensures scale_wraps_the_listed_values: err == nil ==> (forall k :: 0 <= k && k < len(n.Attribute) && n.Attribute[k].Name == "scale" && (forall j :: k < j && j < len(n.Attribute) ==> n.Attribute[j].Name != "scale") && len(n.Attribute[k].Floats) >= 1 ==> sameslice(tdata(self.scale, "float32"), n.Attribute[k].Floats))
+//@   loop 1 invariant forall k :: 0 <= k && k < $i && n.Attribute[k].Name == "scale" && (forall j :: k < j && j < $i ==> n.Attribute[j].Name != "scale") && len(n.Attribute[k].Floats) >= 1 ==> sameslice(tdata(self.scale, "float32"), n.Attribute[k].Floats)
+
 //@ func (*Scaler).Apply
-//@   tags C02
+//@   tags C04,C02
 //@   requires self != nil
 //@   scope inputs_validated: apply_inputs_validated(asop(self), inputs)
-//@   scope initialised: self.offset != nil && self.scale != nil
+//@   scope initialised: self.offset != nil && self.scale != nil && rank(self.offset) == 1 && rank(self.scale) == 1 && dim(self.offset, 0) >= 1 && dim(self.scale, 0) >= 1 &&
+//@          dtype(self.offset) == Float32 && dtype(self.scale) == Float32 && dims_positive(inputs[0])
 //@   modifies opstate(self)
+//@   ensures offset_does_not_fit_refused: !vector_fits(inputs[0], self.offset) ==> err != nil
+//@   ensures scale_does_not_fit_refused: !vector_fits(inputs[0], self.scale) ==> err != nil
+//@   ensures float32_computed: dtype(inputs[0]) == Float32 && vector_fits(inputs[0], self.offset) && vector_fits(inputs[0], self.scale) ==> err == nil
+//@   ensures result_shape_and_type: err == nil ==> len(result) == 1 && result[0] != nil && fresh(result[0]) && same_shape(result[0], inputs[0]) && dtype(result[0]) == dtype(inputs[0])
+//@   ensures input_minus_offset_times_scale: err == nil ==> binkind(contents(result[0])) == 3 && binkind(binlhs(contents(result[0]))) == 2 &&
+//@          binlhs(binlhs(contents(result[0]))) == contents(inputs[0])
+//@   before UnidirectionalBroadcast#1 assert offset_is_broadcast_to_the_input: $arg0 == inputs[0] && $arg1 == self.offset
+//@   before UnidirectionalBroadcast#2 assert scale_is_broadcast_to_the_difference: $arg1 == self.scale && binkind(contents($arg0)) == 2 && binlhs(contents($arg0)) == contents(inputs[0])
+
+//@ spec vector_fits(x tensor.Tensor, v tensor.Tensor) bool = rank(x) >= 1 && (dim(v, 0) == dim(x, rank(x) - 1) || dim(v, 0) == 1)
 
 //@ func (*LinearRegressor).Apply
-//@   tags C02
+//@   tags C04,C02
 //@   requires self != nil
 //@   scope inputs_validated: apply_inputs_validated(asop(self), inputs)
-//@   scope initialised: self.coefficients != nil && self.intercepts != nil
+//@   scope initialised: self.coefficients != nil && self.intercepts != nil && rank(self.coefficients) == 2 && dims_positive(self.coefficients) && dtype(self.coefficients) == Float32 &&
+//@          rank(self.intercepts) == 1 && dim(self.intercepts, 0) >= 1 && dtype(self.intercepts) == Float32 && dims_positive(inputs[0])
 //@   modifies opstate(self)
+//@   ensures not_a_matrix_refused: rank(inputs[0]) != 2 ==> err != nil
+//@   ensures feature_count_differs_refused: rank(inputs[0]) == 2 && dim(inputs[0], 1) != dim(self.coefficients, 0) ==> err != nil
+//@   ensures intercepts_do_not_fit_refused: rank(inputs[0]) == 2 && dim(self.intercepts, 0) != dim(self.coefficients, 1) && dim(self.intercepts, 0) != 1 ==> err != nil
+//@   ensures float32_computed: dtype(inputs[0]) == Float32 && rank(inputs[0]) == 2 && dim(inputs[0], 1) == dim(self.coefficients, 0) &&
+//@          (dim(self.intercepts, 0) == dim(self.coefficients, 1) || dim(self.intercepts, 0) == 1) ==> err == nil
+//@   ensures result_shape_and_type: err == nil ==> len(result) == 1 && result[0] != nil && fresh(result[0]) && rank(result[0]) == 2 &&
+//@          dim(result[0], 0) == dim(inputs[0], 0) && dim(result[0], 1) == dim(self.coefficients, 1) && dtype(result[0]) == dtype(inputs[0])
+//@   ensures product_plus_intercepts: err == nil ==> binkind(contents(result[0])) == 1 && binlhs(contents(result[0])) == k_matmul(contents(inputs[0]), contents(self.coefficients))
+//@   before UnidirectionalBroadcast assert intercepts_are_broadcast_to_the_product: $arg1 == self.intercepts && contents($arg0) == k_matmul(contents(inputs[0]), contents(self.coefficients))
 
 //@ func (*LinearRegressor).Init
-//@   tags C02
+//@   tags C04,C02
 //@   requires self != nil
 //@   scope new_operator: self.coefficients == nil && self.intercepts == nil
+//@   scope attributes_present: n != nil && (forall k :: 0 <= k && k < len(n.Attribute) ==> n.Attribute[k] != nil)
+//@   scope coefficients_given: exists k :: 0 <= k && k < len(n.Attribute) && n.Attribute[k].Name == "coefficients"
 //@   modifies opstate(self)
-//@   loop 1 invariant (self.coefficients == nil || fresh(self.coefficients)) && (self.intercepts == nil || fresh(self.intercepts))
+//@   loop 1 invariant (forall k :: 0 <= k && k < $i ==> n.Attribute[k].Name != "coefficients") || self.coefficients != nil
+//@   loop 1 invariant (self.coefficients == nil || (fresh(self.coefficients) && allocated(self.coefficients) && wf(self.coefficients) && rank(self.coefficients) == 1 && dtype(self.coefficients) == Float32 &&
+//@          blen(self.coefficients) == dim(self.coefficients, 0))) &&
+//@          (self.intercepts == nil || (fresh(self.intercepts) && allocated(self.intercepts) && wf(self.intercepts) && rank(self.intercepts) == 1 && dtype(self.intercepts) == Float32)) &&
+//@          (self.coefficients == nil || self.intercepts == nil || ref(self.coefficients) != ref(self.intercepts))
+//@   ensures unknown_attribute_refused: (exists k :: 0 <= k && k < len(n.Attribute) && n.Attribute[k].Name != "coefficients" && n.Attribute[k].Name != "intercepts" && n.Attribute[k].Name != "targets") ==> err != nil
+//@   loop 1 invariant forall k :: 0 <= k && k < $i ==> (n.Attribute[k].Name == "coefficients" || n.Attribute[k].Name == "intercepts" || n.Attribute[k].Name == "targets")
+//@   ensures targets_stored: err == nil ==> (forall k :: 0 <= k && k < len(n.Attribute) && n.Attribute[k].Name == "targets" && (forall j :: k < j && j < len(n.Attribute) ==> n.Attribute[j].Name != "targets") ==> self.targets == n.Attribute[k].I)
+//@   loop 1 invariant forall k :: 0 <= k && k < $i && n.Attribute[k].Name == "targets" && (forall j :: k < j && j < $i ==> n.Attribute[j].Name != "targets") ==> self.targets == n.Attribute[k].I
+//@   ensures targets_default_kept: err == nil && (forall k :: 0 <= k && k < len(n.Attribute) ==> n.Attribute[k].Name != "targets") ==> self.targets == old(self.targets)
+//@   loop 1 invariant (forall k :: 0 <= k && k < $i ==> n.Attribute[k].Name != "targets") ==> self.targets == old(self.targets)
+//@   ensures coefficient_matrix_is_features_by_targets: err == nil ==> self.coefficients != nil && rank(self.coefficients) == 2 && dtype(self.coefficients) == Float32 && dim(self.coefficients, 1) == self.targets
+//@   ensures every_coefficient_is_used: err == nil ==> (forall k :: 0 <= k && k < len(n.Attribute) && n.Attribute[k].Name == "coefficients" && (forall j :: k < j && j < len(n.Attribute) ==> n.Attribute[j].Name != "coefficients") ==> dim(self.coefficients, 0) * self.targets == len(n.Attribute[k].Floats))
+//@   loop 1 invariant forall k :: 0 <= k && k < $i && n.Attribute[k].Name == "coefficients" && (forall j :: k < j && j < $i ==> n.Attribute[j].Name != "coefficients") ==> self.coefficients != nil && dim(self.coefficients, 0) == len(n.Attribute[k].Floats)
+//@   ensures intercepts_are_a_float32_vector: err == nil && self.intercepts != nil ==> rank(self.intercepts) == 1 && dtype(self.intercepts) == Float32
+//@   ensures one_intercept_per_listed_value: err == nil ==> (forall k :: 0 <= k && k < len(n.Attribute) && n.Attribute[k].Name == "intercepts" && (forall j :: k < j && j < len(n.Attribute) ==> n.Attribute[j].Name != "intercepts") ==> self.intercepts != nil && dim(self.intercepts, 0) == len(n.Attribute[k].Floats))
+//@   loop 1 invariant forall k :: 0 <= k && k < $i && n.Attribute[k].Name == "intercepts" && (forall j :: k < j && j < $i ==> n.Attribute[j].Name != "intercepts") ==> self.intercepts != nil && dim(self.intercepts, 0) == len(n.Attribute[k].Floats)
+//@   before T assert reshaped_to_targets_by_features: self.coefficients != nil && rank(self.coefficients) == 2 && dtype(self.coefficients) == Float32 && dim(self.coefficients, 0) == self.targets &&
+//@          self.targets * dim(self.coefficients, 1) == blen(self.coefficients)
+//@   before T assert intercepts_untouched_by_the_reshape: self.intercepts != nil ==> rank(self.intercepts) == 1 && dtype(self.intercepts) == Float32
+//@   before Reshape assert intercept_count_after_the_loop: forall k :: 0 <= k && k < len(n.Attribute) && n.Attribute[k].Name == "intercepts" && (forall j :: k < j && j < len(n.Attribute) ==> n.Attribute[j].Name != "intercepts") ==> self.intercepts != nil && dim(self.intercepts, 0) == len(n.Attribute[k].Floats)
+//@   before T assert intercept_count_untouched_by_the_reshape: forall k :: 0 <= k && k < len(n.Attribute) && n.Attribute[k].Name == "intercepts" && (forall j :: k < j && j < len(n.Attribute) ==> n.Attribute[j].Name != "intercepts") ==> self.intercepts != nil && dim(self.intercepts, 0) == len(n.Attribute[k].Floats)
 
 
 //@ func gather
@@ -928,6 +995,68 @@ package opset13
 //@   loop 2 invariant forall k :: 0 <= k && k <= axis ==> dim(input, k) == adim(inputs[0], len(shape), k)
 //@   loop 2 exit assert every_axis_was_compatible: forall k :: 0 <= k && k < expand_n(inputs[0], inputs[1]) ==>
 //@          adim(inputs[0], expand_n(inputs[0], inputs[1]), k) == tdim(inputs[1], expand_n(inputs[0], inputs[1]), k) || adim(inputs[0], expand_n(inputs[0], inputs[1]), k) == 1 || tdim(inputs[1], expand_n(inputs[0], inputs[1]), k) == 1
+
+// ---------------------------------------------------------------------------------------
+// C04 (partly): Gemm, LinearRegressor, Scaler: shapes, refusals, and the wiring of gorgonia's
+// kernels (which kernel on which operands, which scalar); the kernels' values are gorgonia's.
+// MatMul (rank handling, batching) is not under contract.
+
+//@ func (*Gemm).Init
+//@   tags C04,C02
+//@   requires self != nil && n != nil
+//@   scope attributes_present: forall k :: 0 <= k && k < len(n.Attribute) ==> n.Attribute[k] != nil
+//@   modifies opstate(self)
+//@   ensures unknown_attribute_refused: (exists k :: 0 <= k && k < len(n.Attribute) && n.Attribute[k].Name != "alpha" && n.Attribute[k].Name != "beta" && n.Attribute[k].Name != "transA" && n.Attribute[k].Name != "transB") ==> err != nil
+//@   ensures known_attributes_accepted: (forall k :: 0 <= k && k < len(n.Attribute) ==> (n.Attribute[k].Name == "alpha" || n.Attribute[k].Name == "beta" || n.Attribute[k].Name == "transA" || n.Attribute[k].Name == "transB")) ==> err == nil
+//@   loop 1 invariant forall k :: 0 <= k && k < $i ==> (n.Attribute[k].Name == "alpha" || n.Attribute[k].Name == "beta" || n.Attribute[k].Name == "transA" || n.Attribute[k].Name == "transB")
+//@   ensures alpha_stored: err == nil ==> (forall k :: 0 <= k && k < len(n.Attribute) && n.Attribute[k].Name == "alpha" && (forall j :: k < j && j < len(n.Attribute) ==> n.Attribute[j].Name != "alpha") ==> self.alpha == n.Attribute[k].F)
+//@   ensures alpha_default_kept: err == nil && (forall k :: 0 <= k && k < len(n.Attribute) ==> n.Attribute[k].Name != "alpha") ==> self.alpha == old(self.alpha)
+//@   loop 1 invariant forall k :: 0 <= k && k < $i && n.Attribute[k].Name == "alpha" && (forall j :: k < j && j < $i ==> n.Attribute[j].Name != "alpha") ==> self.alpha == n.Attribute[k].F
+//@   loop 1 invariant (forall k :: 0 <= k && k < $i ==> n.Attribute[k].Name != "alpha") ==> self.alpha == old(self.alpha)
+//@   ensures beta_stored: err == nil ==> (forall k :: 0 <= k && k < len(n.Attribute) && n.Attribute[k].Name == "beta" && (forall j :: k < j && j < len(n.Attribute) ==> n.Attribute[j].Name != "beta") ==> self.beta == n.Attribute[k].F)
+//@   ensures beta_default_kept: err == nil && (forall k :: 0 <= k && k < len(n.Attribute) ==> n.Attribute[k].Name != "beta") ==> self.beta == old(self.beta)
+//@   loop 1 invariant forall k :: 0 <= k && k < $i && n.Attribute[k].Name == "beta" && (forall j :: k < j && j < $i ==> n.Attribute[j].Name != "beta") ==> self.beta == n.Attribute[k].F
+//@   loop 1 invariant (forall k :: 0 <= k && k < $i ==> n.Attribute[k].Name != "beta") ==> self.beta == old(self.beta)
+//@   ensures transA_stored: err == nil ==> (forall k :: 0 <= k && k < len(n.Attribute) && n.Attribute[k].Name == "transA" && (forall j :: k < j && j < len(n.Attribute) ==> n.Attribute[j].Name != "transA") ==> (self.transA <==> n.Attribute[k].I != 0))
+//@   ensures transA_default_kept: err == nil && (forall k :: 0 <= k && k < len(n.Attribute) ==> n.Attribute[k].Name != "transA") ==> (self.transA <==> old(self.transA))
+//@   loop 1 invariant forall k :: 0 <= k && k < $i && n.Attribute[k].Name == "transA" && (forall j :: k < j && j < $i ==> n.Attribute[j].Name != "transA") ==> (self.transA <==> n.Attribute[k].I != 0)
+//@   loop 1 invariant (forall k :: 0 <= k && k < $i ==> n.Attribute[k].Name != "transA") ==> (self.transA <==> old(self.transA))
+//@   ensures transB_stored: err == nil ==> (forall k :: 0 <= k && k < len(n.Attribute) && n.Attribute[k].Name == "transB" && (forall j :: k < j && j < len(n.Attribute) ==> n.Attribute[j].Name != "transB") ==> (self.transB <==> n.Attribute[k].I != 0))
+//@   ensures transB_default_kept: err == nil && (forall k :: 0 <= k && k < len(n.Attribute) ==> n.Attribute[k].Name != "transB") ==> (self.transB <==> old(self.transB))
+//@   loop 1 invariant forall k :: 0 <= k && k < $i && n.Attribute[k].Name == "transB" && (forall j :: k < j && j < $i ==> n.Attribute[j].Name != "transB") ==> (self.transB <==> n.Attribute[k].I != 0)
+//@   loop 1 invariant (forall k :: 0 <= k && k < $i ==> n.Attribute[k].Name != "transB") ==> (self.transB <==> old(self.transB))
+
+//@ spec gemm_m(self *Gemm, a tensor.Tensor) int = ite(self.transA, dim(a, 1), dim(a, 0))
+//@ spec gemm_ka(self *Gemm, a tensor.Tensor) int = ite(self.transA, dim(a, 0), dim(a, 1))
+//@ spec gemm_kb(self *Gemm, b tensor.Tensor) int = ite(self.transB, dim(b, 1), dim(b, 0))
+//@ spec gemm_n(self *Gemm, b tensor.Tensor) int = ite(self.transB, dim(b, 0), dim(b, 1))
+//@ spec gemm_opa(self *Gemm, a tensor.Tensor) int = ite(self.transA, k_transpose(contents(a), 0), contents(a))
+//@ spec gemm_opb(self *Gemm, b tensor.Tensor) int = ite(self.transB, k_transpose(contents(b), 0), contents(b))
+//@ spec gemm_bias_fits(self *Gemm, a tensor.Tensor, b tensor.Tensor, c tensor.Tensor) bool = rank(c) <= 2 &&
+//@          (adim(c, 2, 0) == gemm_m(self, a) || adim(c, 2, 0) == 1) && (adim(c, 2, 1) == gemm_n(self, b) || adim(c, 2, 1) == 1)
+//@ spec gemm_operands(self *Gemm, a tensor.Tensor, b tensor.Tensor) bool = rank(a) == 2 && rank(b) == 2 && gemm_ka(self, a) == gemm_kb(self, b)
+//@ spec gemm_scaled_product(self *Gemm, a tensor.Tensor, b tensor.Tensor, c int) bool = binkind(c) == 3 && binlhs(c) == k_matmul(gemm_opa(self, a), gemm_opb(self, b)) &&
+//@          boxed32(binrhs(c) - 1000000) == self.alpha
+
+//@ func (*Gemm).Apply
+//@   tags C04,C02
+//@   requires self != nil && len(inputs) == 3 && inputs[0] != nil && inputs[1] != nil
+//@   scope extents_positive: dims_positive(inputs[0]) && dims_positive(inputs[1]) && (inputs[2] != nil ==> dims_positive(inputs[2]))
+//@   scope one_element_type: dtype(inputs[0]) == dtype(inputs[1]) && (inputs[2] != nil ==> dtype(inputs[2]) == dtype(inputs[0]))
+//@   modifies opstate(self)
+//@   ensures not_matrices_refused: rank(inputs[0]) != 2 || rank(inputs[1]) != 2 ==> err != nil
+//@   ensures inner_extents_differ_refused: rank(inputs[0]) == 2 && rank(inputs[1]) == 2 && gemm_ka(self, inputs[0]) != gemm_kb(self, inputs[1]) ==> err != nil
+//@   ensures bias_not_broadcastable_refused: gemm_operands(self, inputs[0], inputs[1]) && inputs[2] != nil && !gemm_bias_fits(self, inputs[0], inputs[1], inputs[2]) ==> err != nil
+//@   ensures float32_computed: dtype(inputs[0]) == Float32 && gemm_operands(self, inputs[0], inputs[1]) &&
+//@          (inputs[2] == nil || gemm_bias_fits(self, inputs[0], inputs[1], inputs[2])) ==> err == nil
+//@   ensures result_shape_and_type: err == nil ==> len(result) == 1 && result[0] != nil && fresh(result[0]) && rank(result[0]) == 2 &&
+//@          dim(result[0], 0) == gemm_m(self, inputs[0]) && dim(result[0], 1) == gemm_n(self, inputs[1]) && dtype(result[0]) == dtype(inputs[0])
+//@   ensures without_bias_alpha_times_product: err == nil && inputs[2] == nil ==> gemm_scaled_product(self, inputs[0], inputs[1], contents(result[0]))
+//@   ensures with_bias_sum_of_scaled_product_and_bias: err == nil && inputs[2] != nil ==> binkind(contents(result[0])) == 1 &&
+//@          gemm_scaled_product(self, inputs[0], inputs[1], binlhs(contents(result[0])))
+//@   ensures attributes_unchanged: self.alpha == old(self.alpha) && self.beta == old(self.beta) && (self.transA <==> old(self.transA)) && (self.transB <==> old(self.transB))
+//@   before UnidirectionalBroadcast assert bias_scaled_by_beta: binkind(contents($arg1)) == 3 && binlhs(contents($arg1)) == contents(inputs[2]) &&
+//@          boxed32(binrhs(contents($arg1)) - 1000000) == self.beta && gemm_scaled_product(self, inputs[0], inputs[1], contents($arg0))
 
 // ---------------------------------------------------------------------------------------
 // C10: unary math and activation operators. gen32 / gen64 / genb denote the value of a tensor at
